@@ -632,6 +632,8 @@ class UserFuncs:
         self.flaky_calls = 0
         self.spy_calls = 0
         self.fired = 0
+        self.on_pause = None
+        self.paused = 0
 
     EXC = {'boom': ZeroDivisionError, 'oserr': FileNotFoundError,
            'keyerr': KeyError, 'valerr': ValueError, 'rterr': RuntimeError,
@@ -652,6 +654,17 @@ class UserFuncs:
                 raise exc('simulated persistent failure')
             return RAISER
 
+        def PAUSE(x):
+            # the evaluation is suspended here while the scheduler lets
+            # another caller run (re-entrancy / a second evaluation in
+            # flight over the same model)
+            hook, uf.on_pause = uf.on_pause, None
+            if hook is not None:
+                uf.paused += 1
+                hook()
+            return x
+
+        ns['PAUSE'] = PAUSE
         ns['WHO'] = WHO
         for kind, exc in self.EXC.items():
             ns['FAIL_' + kind.upper()] = make_raiser(exc)
